@@ -3,7 +3,7 @@ from harness import casgen, common, refio, sessions
 from harness.common import bud
 
 PROP = "C02"
-MODULES = ["CassisModel.Properties.C02", "CassisModel.Properties.C02Closure"]
+MODULES = ["CassisModel.Properties.C02", "CassisModel.Properties.C02Closure", "CassisModel.Properties.C02RoundTrip"]
 THEOREMS = [
     "Cassis.Json.parseFloatValue_special",
     "Cassis.Json.floatElem_roundtrip",
@@ -18,6 +18,8 @@ THEOREMS = [
     "Cassis.TS.closure_sufficient",
     "Cassis.TS.closure_members",
     "Cassis.TS.closure_of_closed",
+    "Cassis.Json.json_roundtrip_flat",
+    "Cassis.Json.json_roundtrip_flat_fixpoint",
 ]
 ASSUMPTIONS = [
     "the theorems cover the per-kind encode/decode pairs (float specials, array elements, the X[] range encoding of array features), the shape of the written document (sofas, then structures once each in ascending id order) and the dependency order of embedded types; the end-to-end statement load(save c) ~ c is checked on the implementation and between implementation and model (partial)",
